@@ -118,6 +118,28 @@ func txBadSig(n nonceBook, a *evmkit.Account, to common.Address, variant int) tx
 	return txDef{"bad-sig", evmkit.EncodeTx(spec, v, r, s)}
 }
 
+// txKVBadSig: a key-value transaction whose signature cannot be recovered (r = 0): it must be
+// invalid on every replica whatever the number of signature-checking workers.
+func txKVBadSig(n nonceBook, a *evmkit.Account, key, val string) txDef {
+	to := common.Address{}
+	spec := evmkit.TxSpec{Nonce: n[a.Addr], To: &to, Gas: evmkit.DefaultGas, Data: evmkit.KVPayload([]byte(key), []byte(val))}
+	v, _, sg := evmkit.SigValues(a, spec)
+	return txDef{"kv-bad-sig", evmkit.EncodeTx(spec, v, new(big.Int), sg)}
+}
+
+// txHugeGas: a plain transfer whose gas limit is just below 2^64 (gas price is 0 on this chain, so
+// it is affordable): whatever a replica executed earlier in its lifetime must not matter for it.
+func txHugeGas(n nonceBook, a *evmkit.Account, to common.Address, below uint64) txDef {
+	spec := evmkit.TxSpec{Nonce: n.next(a), To: &to, Value: big.NewInt(1), Gas: ^uint64(0) - below}
+	return txDef{"huge-gas-transfer", evmkit.Sign(a, spec)}
+}
+
+// txHugeGasInvalid: the same with a value the sender cannot pay (invalid after the gas was bought).
+func txHugeGasInvalid(n nonceBook, a *evmkit.Account, to common.Address, below uint64) txDef {
+	spec := evmkit.TxSpec{Nonce: n[a.Addr], To: &to, Value: new(big.Int).Lsh(big.NewInt(1), 200), Gas: ^uint64(0) - below}
+	return txDef{"huge-gas-unaffordable", evmkit.Sign(a, spec)}
+}
+
 // Clock fixture (hand-assembled, 25 bytes of runtime): any call stores the
 // block context the EVM sees into storage, so that the state root depends on it:
 //
@@ -169,8 +191,8 @@ func buildChain(name string) (*chainDef, error) {
 			b2,
 			{},
 			{txKV(n, b, "kv-overwrite", "k1", "v2"), txBadNonce(n, a, st), txCallLog(n, a, st, 8), txCallClock(n, c, clock)},
-			{txBadSig(n, b, st, 0), txGarbage(), txKV(n, a, "kv-put", "k2", "w1"), txCallPut(n, b, st, 5)},
-			{txCallLog(n, a, st, 9), txTransfer(n, a, b.Addr, 1), txCallRevert(n, c, st), txCallLog(n, a, st, 10), txCallClock(n, b, clock)},
+			{txBadSig(n, b, st, 0), txGarbage(), txKVBadSig(n, c, "k9", "never"), txKV(n, a, "kv-put", "k2", "w1"), txCallPut(n, b, st, 5), txHugeGasInvalid(n, c, a.Addr, 50000)},
+			{txCallLog(n, a, st, 9), txTransfer(n, a, b.Addr, 1), txCallRevert(n, c, st), txCallLog(n, a, st, 10), txCallClock(n, b, clock), txHugeGas(n, a, b.Addr, 1000)},
 		}
 	case name == "B":
 		cd.Blocks = [][]txDef{
@@ -188,8 +210,8 @@ func buildChain(name string) (*chainDef, error) {
 		mk, clock := txCreateClock(n, c)
 		cd.Blocks = [][]txDef{
 			{txCreate(n, a), txCallLog(n, a, st, 1), mk},
-			{txTransfer(n, a, c.Addr, 5), txBadNonce(n, a, st), txCallRevert(n, b, st)},
-			{txCreate(n, b), txCallLog(n, a, s2, 4), txCallClock(n, b, clock)},
+			{txTransfer(n, a, c.Addr, 5), txBadNonce(n, a, st), txCallRevert(n, b, st), txHugeGasInvalid(n, c, a.Addr, 50000)},
+			{txCreate(n, b), txCallLog(n, a, s2, 4), txCallClock(n, b, clock), txHugeGas(n, a, c.Addr, 1000)},
 			{},
 			{txBadSig(n, a, st, 0), txGarbage(), txCallLog(n, a, st, 2), txCallLog(n, a, st, 3), txCallLog(n, a, st, 4), txCallPut(n, a, st, 9), txBadSig(n, b, st, 1)},
 			{txTransfer(n, c, a.Addr, 2), txCallLog(n, b, s2, 5), txCallRevert(n, c, st), txCallClock(n, a, clock)},
